@@ -226,7 +226,16 @@ func wrongHit(k1, c1, k2, c2 string) bool {
 	return s == "reply-of-command-1"
 }
 
-func run(ci any) (res obs.Result) {
+// run wraps the Gallina term in parentheses (./check --replay applies check_case to it textually)
+func run(ci any) obs.Result {
+	res := runCase(ci)
+	if res.Coq != "" {
+		res.Coq = "(" + res.Coq + ")"
+	}
+	return res
+}
+
+func runCase(ci any) (res obs.Result) {
 	c := ci.(*Case)
 	res.Kind = c.Kind
 	switch c.Kind {
